@@ -406,7 +406,7 @@ func (le *LockEngine) insideGo(fn *Fn) bool {
 }
 
 func (le *LockEngine) analyse(fn *Fn, entry Facts) {
-	fl := &Flow{P: le.p, Fn: fn, Entry: entry}
+	fl := &Flow{P: le.p, Fn: fn, Entry: entry, InlineDefers: true}
 	fl.Node = func(n ast.Node, f Facts) { le.node(fn, n, f, false) }
 	fl.Run()
 	le.flows[fn] = fl
@@ -956,7 +956,7 @@ func (le *LockEngine) joined(fn *Fn, goCall *ast.CallExpr, lit *ast.FuncLit) boo
 	if wgKey == "" {
 		return false
 	}
-	fl := &Flow{P: le.p, Fn: fn, May: true, Entry: Facts{}}
+	fl := &Flow{P: le.p, Fn: fn, May: true, Entry: Facts{}, InlineDefers: true}
 	escaped := false
 	fl.Node = func(n ast.Node, f Facts) {
 		walkNoLit(n, func(nd ast.Node) bool {
